@@ -76,6 +76,9 @@ def script(behs, quiet_prefix=True):
 
 
 STORE_KEYS = ("all", "rel")
+# the typed entry points (mpt_config_getp / mpt_config_get / config::get with target type and destination) must
+# answer every path like the plain query: same expected list (TLC's exp.all / exp.rel)
+TYPED_KEYS = (("typed", "all"), ("tget", "all"), ("relt", "rel"), ("reltget", "rel"))
 PATH_ACTIONS = ("pset", "pnext", "plast", "pdel", "paddelem")
 
 
@@ -94,6 +97,13 @@ def match(exp, obs, step, rec, prev):
                 return "%s: paths %s: expected %s, observed %s" % (k, diff[:6], json.dumps([exp[k][i] for i in diff[:6]]),
                                                                    json.dumps([obs[k][i] for i in diff[:6]]))
             return "%s: expected %s, observed %s" % (k, json.dumps(exp[k]), json.dumps(obs[k]))
+    if step["a"] not in PATH_ACTIONS:
+        for k, ek in TYPED_KEYS:
+            if k in obs and obs[k] != exp[ek]:
+                diff = [i for i, (x, y) in enumerate(zip(exp[ek], obs[k])) if x != y]
+                return "%s: paths %s: expected %s, typed query answered %s ([-1] error, [-2] success without writing " \
+                       "the destination)" % (k, diff[:6], json.dumps([exp[ek][i] for i in diff[:6]]),
+                                             json.dumps([obs[k][i] for i in diff[:6]]))
     if "nodes" in obs and "nodes" in exp and obs["nodes"] != exp["nodes"]:
         return "nodes: %d elements in the store, %d node blocks allocated" % (exp["nodes"], obs["nodes"])
     if not exp.get("anyret") and obs.get("ret") != exp.get("ret"):
